@@ -37,7 +37,7 @@ package consensus
 //@   trusted
 //@   modifies s._hash, s._publicKey
 //@   ensures sb_haskey(owner(s)) ==> a != nil
-//@   ensures a != nil ==> addrID(a) == sb_signer(owner(s))
+//@   ensures a != nil ==> addrID(a) == sb_signer(owner(s)) && addr_id(toiface(a)) == sb_signer(owner(s))
 
 //@ spec dsvOK(v) = v != nil ==> (v.msg != nil && sb_haskey(ref(v.msg)))
 //@ spec dsvOther(o) = as(ptr_dsVote, o)
@@ -263,3 +263,20 @@ package consensus
 //@   loop 0: invariant vset != nil && len(vset) == vl_len(validators) && off(vset) == 0 && validators != nil && blk_height(block) != 0
 //@   loop 0: invariant forall k int :: {bvl.Items[k]} 0 <= k && k <= rangeindex ==> itemOK(bvl, block, validators, k) && vset[itemIdx(bvl, block, validators, k)]
 //@   loop 0: invariant forall k1 int, k2 int :: {bvl.Items[k1], bvl.Items[k2]} 0 <= k1 && k1 < k2 && k2 <= rangeindex ==> itemIdx(bvl, block, validators, k1) != itemIdx(bvl, block, validators, k2)
+
+// Fast sync: a precommit taken from the synced commit vote list is counted in the slot of the
+// validator whose key signed it (and only if that signer is a validator).
+//@ func (hvs *heightVoteSet) add(index, v) (added, vs)
+//@   trusted
+//@   modifies *
+//@ func (l *VoteList) Get(i) (m)
+//@   trusted
+//@   pure
+//@   ensures m != nil
+//@ func (cs *consensus) processBlock(br)
+//@   nosafety
+//@   modifies *
+//@   opt inline-none
+//@   requires cs != nil && br != nil
+//@   callpre add: index >= 0 && index == vl_idx(cs.validators, sb_signer(ref(v)))
+//@   loop 0: invariant cs != nil
